@@ -24,7 +24,9 @@ LEVEL = {'text': 'Machine-checked (Coq 8.16, no axioms) theorems over ALL byte l
                  '(C01_counts_exact, thresholds 0xff00/0xffff explicit in C01_escape_thresholds); the machine -> sh_type/p_type dictionary maps obey '
                  'the gABI processor-range rule and hold the supplements\' codes (C01_machine_sh_types, C01_machine_p_types, C01_machine_anchors); names, get_section/get_segment objects with their kind, iter_sections/iter_segments in file order with the '
                  'type filter = filter (C01_names_exact, C01_section_exact, C01_segment_exact, C01_iter_*_exact); index and name lookups agree '
-                 'with the enumeration, last section bearing a name wins (C01_index_agrees, C01_lookup_agrees, C01_lookup_meaning); enum fields '
+                 'with the enumeration, last section bearing a name wins (C01_index_agrees, C01_lookup_agrees, C01_lookup_meaning); for every call '
+                 'history on one object (abandoned/full enumerations, lookups, any order) each answer is the history-free one and '
+                 '_section_name_map is None or the complete map (C01_history_independent, model state in Model/C01History.v); enum fields '
                  'decode to a name of the dictionary bound to the field or the raw integer (C01_enum_fields, C01_enum_named_or_raw, '
                  'C01_enum_adapter). Unconditional (any stream): the class of every object _make_section/_make_segment return is the one the '
                  'decoded type calls for, incl. the .stab rule (C01_dispatch_kind, C01_segment_kind). Gen layouts = gABI tables '
@@ -34,7 +36,8 @@ LEVEL = {'text': 'Machine-checked (Coq 8.16, no axioms) theorems over ALL byte l
          'design_ref': '4.1', 'technique': 'Coq proof (generic layout round trip, layout predicates) + extracted-model correspondence',
          'note': 'Trusted: Coq kernel, ExtrOcamlBasic extraction, harness, Gen translators. No axioms, nothing _partial. Names of codes are '
                  'relative to the dictionaries regenerated from the code (C17 ties those to the registries). Only pinned by correspondence '
-                 '(not proved): that the hand model equals the Python code; behaviour on malformed images (model_drift stream). The theorems '
+                 '(not proved): that the hand model equals the Python code; independence of two live ELFFile objects (the model has no shared '
+                 'state; pinned by the pair stream); behaviour on malformed images (model_drift stream). The theorems '
                  'require, per specialised section kind, what its constructor checks (valid sh_link target, entry size, readable '
                  'compression/hash header, attributes version byte) — part of wf_image.'}
 RULE = ('cases: synthesized ELF images = class x byte order x e_machine (the 5 table-switching machines, other named, unknown numbers) x '
@@ -42,7 +45,10 @@ RULE = ('cases: synthesized ELF images = class x byte order x e_machine (the 5 t
         '(escape e_shnum=0/PN_XNUM/SHN_XINDEX forced at small counts; true >=0xff00 sections / >=0xffff segments in thorough) x random '
         'field values incl. unknown and processor-specific type codes x duplicate/empty/non-ASCII/long names; every processor-supplement '
         'code of Spec/C01Machines.v on its machine (expected name from the Coq spec, kind anchor); real 0xfeff..0x10000-entry tables at the '
-        'boundary values of the three escape rules (kind edge, every run); plus malformed variants '
+        'boundary values of the three escape rules (kind edge, every run); on every well-formed image a call history on ONE object '
+        '(enumerations abandoned after k items, lookups first on a fresh object, names that are proper suffixes of stored names or strings '
+        'of the name table naming no section); pairs of live objects of different table-switching machines read alternately (kind pair); '
+        'plus malformed variants '
         '(out-of-domain). distinct = hash(kind, abstract); non-trivial = at least one section or segment')
 
 EM_SPECIAL = [40, 183, 62, 8, 243]            # ARM, AARCH64, X86_64, MIPS, RISCV
@@ -182,6 +188,10 @@ def make_case(rng, opts=None):
         offs[nm] = len(strbody)
         sh_names.append(len(strbody))
         strbody += nm + b'\0'
+    for _ in range(rng.choice([0, 0, 1, 2])):
+        ex = rng.choice([b'.unused', b'.text', b'data', b'.debug_info', b'.symtab', b'tab', b'.rela.dyn'])
+        if ex not in names:
+            strbody += ex + b'\0'          # a string of the table that names no section
     if rng.random() < 0.3:
         strbody += bytes(rng.randint(1, 255) for _ in range(rng.randint(1, 5)))   # unterminated garbage after the last name
 
@@ -231,6 +241,8 @@ def make_case(rng, opts=None):
         sh_entsize = _rand_word(rng, bits)
         if i == k:
             sh_offset = where['strtab']
+            if rng.random() < 0.7:
+                sh_size = len(strbody)
         if ('chdr%d' % i) in blobs:
             if i == k:
                 # the name table itself flagged compressed: its compression header is the start of the string body
@@ -450,6 +462,10 @@ def gen(ctx):
     for which, cnt in (('sh', 11), ('p', 6)):
         for idx in range(cnt):
             cases.append(('anchor', ['anchor', which, idx, rng.getrandbits(1), rng.getrandbits(1), rng.getrandbits(32)]))
+    # two live ELFFile objects of one class / byte order and different table-switching machines, read alternately
+    for _ in range(ctx.scale(12, 120)):
+        ma, mb = rng.sample(EM_SPECIAL, 2)
+        cases.append(('pair', ['pair', rng.getrandbits(1), rng.getrandbits(1), ma, mb, rng.getrandbits(32), rng.getrandbits(32)]))
     # extended numbering at the boundary values of every escape rule: real ~0xff00-entry tables
     for idx in range(ctx.scale(4, len(EDGES))):
         cases.append(('edge', ['edge', idx, rng.getrandbits(1), rng.getrandbits(1), rng.getrandbits(32), rng.choice([0, 0, 8])]))
@@ -609,9 +625,11 @@ def _impl_answer(elf, q, fresh):
             # a fresh object per lookup: a failed _make_section_name_map leaves a partial map behind
             # (history dependence on malformed files is C10's subject, not C01's)
             elf = fresh()
-            i = elf.get_section_index(name)
-            h = elf.has_section(name)
-            s = elf.get_section_by_name(name)
+            got = {}
+            for which in (('i', 'h', 's'), ('h', 'i', 's'), ('s', 'h', 'i'), ('h', 's', 'i'))[len(q[1]) % 4]:
+                got[which] = (elf.get_section_index(name) if which == 'i' else elf.has_section(name) if which == 'h'
+                              else elf.get_section_by_name(name))
+            i, h, s = got['i'], got['h'], got['s']
             return ['none' if i is None else ['some', i], int(h), 'none' if s is None else ['some', _obs_section(s)]]
         return wrap(f)
     raise ValueError(op)
@@ -641,6 +659,113 @@ def _canon_names(ans):
     return ans
 
 
+def _probe_names(a):
+    """names to look up: every present name, proper suffixes of present names (tail-merged tables store '.text'
+    inside '.rela.text'), strings of the name table that name no section, absent names"""
+    out = []
+    def add(nm):
+        try:
+            nm.decode('utf-8')
+        except UnicodeDecodeError:
+            return
+        if nm not in out:
+            out.append(nm)
+    present = [nm for nm, _ in a[0][3]]
+    for nm in present:
+        add(nm)
+    for nm in present:
+        if len(nm) > 1:
+            add(nm[1:])
+            add(nm[len(nm) // 2:])
+    if a[0][3] and a[3]:
+        for piece in bytes(a[3][0][1]).split(b'\0'):
+            add(piece)
+    for nm in (b'.absent', b'.tex', '.äbsent'.encode()):
+        add(nm)
+    return out
+
+
+def history_ops(a, spec_sections, seed):
+    """a call history on ONE object: enumerations abandoned after k items, full ones, lookups; often a lookup first
+    (fresh object) or an abandoned enumeration followed by lookups of sections beyond the stopping point"""
+    r = random.Random(seed ^ 0x5bd1e995)
+    sections = a[0][3]
+    n = len(sections)
+    probes = _probe_names(a)
+    present = [nm for nm in probes if any(nm == s[0] for s in sections)]
+    foreign = [nm for nm in probes if nm not in present]
+    types = []
+    for s in spec_sections:
+        ty = dict((f, v) for f, v in s[1]).get('sh_type')
+        if ty not in types:
+            types.append(ty)
+    def ty():
+        return '<none>' if (not types or r.random() < 0.5) else r.choice(types + ['SHT_GROUP'])
+    def lookup(pool):
+        return [r.choice(['has', 'index', 'by_name']), r.choice(pool)]
+    ops = []
+    style = r.randrange(4)
+    if style == 0:
+        ops.append(['has', r.choice(foreign if foreign and r.random() < 0.7 else probes)])
+    elif style == 1 and n > 0:
+        k = r.randrange(0, n)
+        ops.append(['take', ty(), k])
+        later = [s[0] for s in sections[k:]] or present
+        later = [nm for nm in later if nm in probes] or probes
+        ops += [lookup(later), lookup(later)]
+    elif style == 2 and types:
+        ops.append(['take', r.choice(types), 1])
+        ops.append(lookup(present or probes))
+    for _ in range(r.randint(2, 5)):
+        x = r.random()
+        if x < 0.6:
+            ops.append(lookup(probes))
+        elif x < 0.85:
+            ops.append(['take', ty(), r.randrange(0, n + 2)])
+        else:
+            ops.append(['iter', ty()])
+    return ops
+
+
+def impl_history(elf, ops):
+    import itertools
+    out = []
+    for op in ops:
+        def f():
+            if op[0] in ('take', 'iter'):
+                it = elf.iter_sections(type=None if op[1] == '<none>' else op[1])
+                return [_obs_section(s) for s in (itertools.islice(it, op[2]) if op[0] == 'take' else it)]
+            name = op[1].decode('utf-8')
+            if op[0] == 'has':
+                return int(elf.has_section(name))
+            if op[0] == 'index':
+                i = elf.get_section_index(name)
+                return 'none' if i is None else ['some', i]
+            s = elf.get_section_by_name(name)
+            return 'none' if s is None else ['some', _obs_section(s)]
+        try:
+            out.append(['ok', f()])
+        except Exception as e:      # noqa
+            out.append(['err', type(e).__name__])
+    return out
+
+
+SH_PROC_OF = {40: [0x70000001, 0x70000003], 183: [0x70000003], 62: [0x70000001], 8: [0x70000006, 0x7000002a, 0x70000003], 243: [0x70000003]}
+P_PROC_OF = {40: [0x70000001], 183: [0x70000001], 62: [0x6474e550], 8: [0x70000003], 243: [0x70000003]}
+
+
+def expand_pair(a):
+    """two images of the same class and byte order for two different table-switching machines, each with a
+    processor-specific section and segment type"""
+    _, is64, le, ma, mb, sa, sb = a
+    out = []
+    for mach, seed in ((ma, sa), (mb, sb)):
+        r = random.Random(seed)
+        out.append(make_case(r, dict(is64=bool(is64), le=bool(le), machine=mach, n=4, m=2,
+                                     force_sh_type=r.choice(SH_PROC_OF[mach]), force_p_type=r.choice(P_PROC_OF[mach]))))
+    return out
+
+
 def _classify(a, img, impl, spec, queries):
     """stable key for a failing case: which observable differs first"""
     sp = a[0]
@@ -652,10 +777,66 @@ def _classify(a, img, impl, spec, queries):
     return 'C01/other'
 
 
+def _drive(drv, kinds, full, imgs):
+    """driver passes over a list of images: the fixed queries; type filters and name lookups chosen from the
+    spec's view; a call history on one object.  Returns per image (queries, wf, model, spec, history ops)."""
+    q1 = [queries_for(a, a[2]) for a in full]
+    r1 = drv.batch([['run', img, a[0], q] for img, a, q in zip(imgs, full, q1)])
+    q2, hops = [], []
+    for kind, a, r in zip(kinds, full, r1):
+        qs, ops = [], []
+        if kind not in ('big', 'edge'):
+            rr = random.Random(a[2])
+            spec_ans = r[2]
+            secs = spec_ans[4][1] if spec_ans[4][0] == 'ok' else []
+            segs = spec_ans[5][1] if spec_ans[5][0] == 'ok' else []
+            qs += _type_queries(secs, segs, rr)
+            probes = _probe_names(a)
+            present = [nm for nm in probes if any(nm == s[0] for s in a[0][3])]
+            foreign = [nm for nm in probes if nm not in present]
+            for nm in present + rr.sample(foreign, min(len(foreign), 4)):
+                qs.append(['by_name', nm])
+            if kind != 'malformed':
+                ops = history_ops(a, secs, a[2])
+        q2.append(qs)
+        hops.append(ops)
+    idx2 = [i for i, q in enumerate(q2) if q]
+    got2 = drv.batch([['run', imgs[i], full[i][0], q2[i]] for i in idx2])
+    r2 = [[0, [], []] for _ in q2]
+    for i, g in zip(idx2, got2):
+        r2[i] = g
+    idxh = [i for i, o in enumerate(hops) if o]
+    goth = drv.batch([['history', imgs[i], full[i][0], hops[i]] for i in idxh])
+    rh = [[0, [], []] for _ in hops]
+    for i, g in zip(idxh, goth):
+        rh[i] = g
+    out = []
+    for qa, ra, qb, rb, ops, rc in zip(q1, r1, q2, r2, hops, rh):
+        out.append(dict(queries=qa + qb, nq=len(qa) + len(qb), ops=ops, wf=bool(ra[0]),
+                        model=_canon_names(_strip_pad(ra[1] + rb[1] + rc[1])),
+                        spec=_canon_names(_strip_pad(ra[2] + rb[2] + rc[2]))))
+    return out
+
+
+def _impl(ELFFile, img, d, elf=None):
+    """the real library on one image: the queries on one object (name lookups on fresh ones), then the
+    call history on ONE fresh object"""
+    try:
+        if elf is None:
+            elf = ELFFile(io.BytesIO(img))
+        impl = [_impl_answer(elf, q, lambda: ELFFile(io.BytesIO(img))) for q in d['queries']]
+        if d['ops']:
+            impl += impl_history(ELFFile(io.BytesIO(img)), d['ops'])
+    except Exception as e:          # noqa: constructor failure is the answer to every query
+        impl = [['err', type(e).__name__] for _ in d['queries'] + d['ops']]
+    return impl
+
+
 def evaluate(ctx, cases):
     from elftools.elf.elffile import ELFFile
     drv = ctx.driver
-    full = []
+    # ---- flatten: one entry per image (a pair case has two)
+    kinds, full, owner = [], [], []
     anchor_of = {}
     anchors = None
     for ci, (kind, a) in enumerate(cases):
@@ -663,57 +844,64 @@ def evaluate(ctx, cases):
             if anchors is None:
                 anchors = drv.batch([['anchors']])[0]
             b, anchor_of[ci] = expand_anchor(a, anchors)
-            full.append(b)
+            kinds.append(kind); full.append(b); owner.append(ci)
+        elif kind == 'pair':
+            for b in expand_pair(a):
+                kinds.append('image'); full.append(b); owner.append(ci)
         else:
+            kinds.append(kind); owner.append(ci)
             full.append(expand_big(a) if kind == 'big' else expand_edge(a) if kind == 'edge' else a)
-    small = [i for i, (kind, _) in enumerate(cases) if kind not in ('edge', 'big')]
+    small = [i for i, kind in enumerate(kinds) if kind not in ('edge', 'big')]
     encs = [None] * len(full)
     for i, enc in zip(small, drv.batch([['encode', full[i][0]] for i in small])):
         encs[i] = enc
-    for i, (kind, _) in enumerate(cases):
-        if encs[i] is None:
-            encs[i] = py_encode(full[i][0])
     imgs = []
-    for (kind, a0), a, enc in zip(cases, full, encs):
-        img = assemble(a, enc)
+    for i, (kind, a) in enumerate(zip(kinds, full)):
+        img = assemble(a, encs[i] if encs[i] is not None else py_encode(a[0]))
         if kind == 'malformed':
             img = mutate(img, a)
         imgs.append(img)
-    # pass 1: the fixed queries (also yields the model's view, used to choose type filters)
-    q1 = [queries_for(a, a[2]) for a in full]
-    r1 = drv.batch([['run', img, a[0], q] for img, a, q in zip(imgs, full, q1)])
-    # pass 2: type filters and name lookups
-    q2 = []
-    for (kind, a0), a, q, r in zip(cases, full, q1, r1):
-        qs = []
-        if kind not in ('big', 'edge'):
-            rr = random.Random(a[2])
-            spec_ans = r[2]
-            secs = spec_ans[4][1] if spec_ans[4][0] == 'ok' else []
-            segs = spec_ans[5][1] if spec_ans[5][0] == 'ok' else []
-            qs += _type_queries(secs, segs, rr)
-            present = []
-            for nm, _ in a[0][3]:
-                if nm not in present:
-                    present.append(nm)
-            for nm in present + [b'.absent', b'.tex', '.äbsent'.encode()]:
-                qs.append(['by_name', nm])
-        q2.append(qs)
-    idx2 = [i for i, q in enumerate(q2) if q]
-    got2 = drv.batch([['run', imgs[i], full[i][0], q2[i]] for i in idx2])
-    r2 = [[0, [], []] for _ in q2]
-    for i, g in zip(idx2, got2):
-        r2[i] = g
-    for ci, ((kind, a0), a, img, qa, ra, qb, rb) in enumerate(zip(cases, full, imgs, q1, r1, q2, r2)):
-        queries = qa + qb
-        wf = bool(ra[0])
-        model = _canon_names(_strip_pad(ra[1] + rb[1]))
-        spec = _canon_names(_strip_pad(ra[2] + rb[2]))
-        try:
-            elf = ELFFile(io.BytesIO(img))
-            impl = [_impl_answer(elf, q, lambda: ELFFile(io.BytesIO(img))) for q in queries]
-        except Exception as e:          # noqa: constructor failure is the answer to every query
-            impl = [['err', type(e).__name__] for _ in queries]
+    driven = _drive(drv, kinds, full, imgs)
+    by_case = {}
+    for i, ci in enumerate(owner):
+        by_case.setdefault(ci, []).append(i)
+
+    for ci, (kind, a0) in enumerate(cases):
+        ids = by_case[ci]
+        if kind == 'pair':
+            # open A, open B, then read A, read B, read A again: every answer must be the one of that image alone
+            ia, ib = ids
+            try:
+                elfa = ELFFile(io.BytesIO(imgs[ia]))
+                elfb = ELFFile(io.BytesIO(imgs[ib]))
+                impl = _impl(ELFFile, imgs[ia], driven[ia], elfa) + _impl(ELFFile, imgs[ib], driven[ib], elfb)
+                again = dict(queries=driven[ia]['queries'][:6], ops=[])
+                impl += _impl(ELFFile, imgs[ia], again, elfa)
+            except Exception as e:      # noqa
+                impl = [['err', type(e).__name__]]
+            da, db = driven[ia], driven[ib]
+            model = da['model'] + db['model'] + da['model'][:6]
+            spec = da['spec'] + db['spec'] + da['spec'][:6]
+            queries = ([['A'] + q for q in da['queries']] + [['A', 'history'] + [o] for o in da['ops']] +
+                       [['B'] + q for q in db['queries']] + [['B', 'history'] + [o] for o in db['ops']] +
+                       [['A-again'] + q for q in da['queries'][:6]])
+            in_domain = da['wf'] and db['wf']
+            key = None
+            if in_domain and impl != spec:
+                key = 'C01/pair/' + next((q[0] + '/' + str(q[1]) for q, x, y in zip(queries, impl, spec) if x != y), 'other')
+            ctx.bump('kind', kind)
+            ctx.bump('pair_machines', '%d-%d' % (a0[3], a0[4]))
+            ctx.bump('in_domain', int(in_domain))
+            if not in_domain:
+                spec = model
+            ctx.record(kind, a0, impl=impl, spec=spec, model=model, in_domain=in_domain, nontrivial=True, key=key,
+                       detail={'wf': in_domain, 'len': len(imgs[ia]) + len(imgs[ib])})
+            continue
+        i = ids[0]
+        a, img, d = full[i], imgs[i], driven[i]
+        queries = d['queries'] + [['history', o] for o in d['ops']]
+        wf, model, spec = d['wf'], d['model'], d['spec']
+        impl = _impl(ELFFile, img, d)
         in_domain = wf and kind != 'malformed'
         if kind in ('edge', 'big') and not wf:
             raise RuntimeError('C01 harness: a %s image is not certified by wf_image (py_encode or the generator is wrong)' % kind)
@@ -740,6 +928,9 @@ def evaluate(ctx, cases):
         ctx.bump('segments', len(sp[4]) if len(sp[4]) < 10 else '10+')
         ctx.bump('in_domain', int(in_domain))
         ctx.bump('escapes', '%d%d%d' % (int(bool(sp[3]) and sp[2][15] == 0), int(sp[2][13] == 0xffff), int(sp[2][16] == 0xffff)))
+        if d['ops']:
+            ctx.bump('history_first_op', d['ops'][0][0])
+            ctx.bump('history_len', len(d['ops']))
         key = None
         if in_domain and impl != spec:
             key = _classify(a, img, impl, spec, queries)
